@@ -68,6 +68,9 @@ type workerOut struct {
 	ReuseParses  int64             `json:"reused_parsing_context_parses"`
 	DifferOK     int64             `json:"reuse_results_that_differ_bytewise_but_round_trip"`
 	NoEncodeInto int64             `json:"values_of_models_without_generated_encodeinto"`
+	HeldWires    int64             `json:"held_first_wires_recompared_after_a_second_encode"`
+	HeldValues   int64             `json:"held_first_values_recompared_after_a_second_parse"`
+	Pristine     int64             `json:"values_compared_with_a_pristine_twin_after_encoding"`
 }
 
 func countEncodeInto(sc *scanResult) map[string]int {
@@ -378,24 +381,28 @@ func main() {
 		"values_with_boundary_directed_cuts":   wout.SegDirected,
 		"values_with_every_3_segment_cut_pair": wout.Seg3,
 		"values_parsed_as_all_1_byte_segments": wout.SegSingle,
-		"single_value_spanning_3_or_4_segments_parses": wout.SegSpan,
-		"segmentation_bounds":                          wout.SegLimits,
-		"max_deviations":                               wout.MaxDev,
-		"max_struct_depth_for_nested_deviations":       wout.MaxDepth,
-		"units_total":                                  wout.UnitsTotal,
-		"units_done":                                   wout.UnitsDone,
-		"phase1_le1_deviation_all_clauses_complete":    wout.Phase1Done,
-		"phase2_pairs_len_rt_run":                      wout.Phase2Run,
-		"phase2_pairs_len_rt_complete":                 wout.Phase2Done,
-		"raw_violating_cases":                          wout.Raw,
+		"single_value_spanning_3_or_4_segments_parses":        wout.SegSpan,
+		"segmentation_bounds":                                 wout.SegLimits,
+		"max_deviations":                                      wout.MaxDev,
+		"max_struct_depth_for_nested_deviations":              wout.MaxDepth,
+		"units_total":                                         wout.UnitsTotal,
+		"units_done":                                          wout.UnitsDone,
+		"phase1_le1_deviation_all_clauses_complete":           wout.Phase1Done,
+		"phase2_pairs_len_rt_run":                             wout.Phase2Run,
+		"phase2_pairs_len_rt_complete":                        wout.Phase2Done,
+		"raw_violating_cases":                                 wout.Raw,
+		"values_compared_with_a_pristine_twin_after_encoding": wout.Pristine,
 		"objects_with_an_earlier_use": map[string]any{
-			"rule":                                             "for every <=1-deviation value v whose fresh encoding passed C13.len and C13.rt: (a) the exported XEncoder.EncodeInto into memory of exactly the announced length (nocopy models: exactly the planned segments) pre-filled with 0xFF and with 0x5A; (b) ONE encoder object: Init(p)[; Encode(p)]; Init(v); Encode(v) for p in {all-minimal, all-typical, all-maximal value of the model, v itself}, with and without the intermediate Encode, and Init(v)[; Encode(v)]; Init(b); Encode(b) for the three base values b; (c) ONE parsing context: Init(); Parse(enc(p)); Init(); Parse(enc(v)), same ordered pairs. Verdict: announced length, well-formed, decodes to the value (bytes equal to the fresh objects' output are accepted without decoding)",
-			"encodeinto_dirty_memory_encodes":                  wout.DirtyEncodes,
-			"reused_encoder_encodes":                           wout.ReuseEncodes,
-			"reused_parsing_context_parses":                    wout.ReuseParses,
-			"results_that_differ_bytewise_but_round_trip":      wout.DifferOK,
-			"values_of_models_without_generated_encodeinto":    wout.NoEncodeInto,
-			"models_with_encodeinto_into_a_byte_slice_or_wire": countEncodeInto(sc),
+			"rule":                                              "for every <=1-deviation value v whose fresh encoding passed C13.len and C13.rt: (a) the exported XEncoder.EncodeInto into memory of exactly the announced length (nocopy models: exactly the planned segments) pre-filled with 0xFF and with 0x5A; (b) ONE encoder object: Init(p)[; Encode(p)]; Init(v); Encode(v) for p in {all-minimal, all-typical, all-maximal value of the model, v itself}, with and without the intermediate Encode, and Init(v)[; Encode(v)]; Init(b); Encode(b) for the three base values b; (c) ONE parsing context: Init(); Parse(enc(p)); Init(); Parse(enc(v)), same ordered pairs. Verdict: announced length, well-formed, decodes to the value (bytes equal to the fresh objects' output are accepted without decoding)",
+			"encodeinto_dirty_memory_encodes":                   wout.DirtyEncodes,
+			"reused_encoder_encodes":                            wout.ReuseEncodes,
+			"reused_parsing_context_parses":                     wout.ReuseParses,
+			"results_that_differ_bytewise_but_round_trip":       wout.DifferOK,
+			"values_of_models_without_generated_encodeinto":     wout.NoEncodeInto,
+			"held_results_rule":                                 "the result of the FIRST use is kept by reference and compared again after the second use: the wire returned by Encode(p) must still hold enc(p) after Init(v); Encode(v) on the same encoder object, the value returned by Parse(enc(p)) must still equal p after Parse(enc(v)) on the same context object; p in {three base values, v itself}; the same for two uses of separate new objects and of the public API (value.Encode(), value.Bytes(), ParseX) with p in {all-typical, all-maximal value}",
+			"held_first_wires_recompared_after_a_second_encode": wout.HeldWires,
+			"held_first_values_recompared_after_a_second_parse": wout.HeldValues,
+			"models_with_encodeinto_into_a_byte_slice_or_wire":  countEncodeInto(sc),
 		},
 		"regeneration":                      gres,
 		"regeneration_dirs":                 len(sc.GenDirs),
